@@ -729,12 +729,15 @@ class PhaseField(_Simu):
         Nn = self.mesh.Nn
 
         values = None
+        # results are stored at nodes unless the case below says otherwise
+        storedAtNodes = True
 
         if result in ["Wdef"]:
             return self._Calc_Psi_Elas()
 
         elif result == "Wdef_e":
             values = self._Calc_Psi_Elas(returnScalar=False)
+            storedAtNodes = False
 
         elif result == "Psi_Crack":
             return self._Calc_Psi_Crack()
@@ -748,6 +751,7 @@ class PhaseField(_Simu):
                     for groupElem in self.mesh.Get_list_groupElem()
                 ]
             )
+            storedAtNodes = False
 
         elif result == "damage":
             values = self.damage  # type: ignore [assignment]
@@ -786,6 +790,7 @@ class PhaseField(_Simu):
                 result=res,
                 coef=self.phaseFieldModel.material.coef,
             )
+            storedAtNodes = False
 
         else:
             Terminal.MyPrintError(f"The result '{result}' is not implemented yet.")
@@ -793,7 +798,7 @@ class PhaseField(_Simu):
 
         # end cases ----------------------------------------------------
 
-        return self.Results_Reshape_values(values, nodeValues)
+        return self.Results_Reshape_values(values, nodeValues, storedAtNodes)
 
     def __indexResult(self, result: str) -> int:
         if len(result) <= 2:
